@@ -10,6 +10,7 @@ from __future__ import annotations
 
 import multiprocessing as mp
 import os
+import pickle
 import traceback
 from collections import Counter
 
@@ -65,31 +66,118 @@ class Part(dict):
 def _call(args):
     fn, shard = args
     try:
-        return ("ok", fn(shard))
+        part = fn(shard)
+        for v in part.get("violations", []):
+            v["shard"] = shard
+        return ("ok", part)
     except Exception:  # noqa: BLE001
         return ("err", f"shard {shard!r}:\n{traceback.format_exc()}")
 
 
+def in_child(fn, *args):
+    """Run ``fn(*args)`` in a forked copy of this process and return its (picklable) result."""
+    r, w = os.pipe()
+    pid = os.fork()
+    if pid == 0:
+        code = 0
+        try:
+            os.close(r)
+            try:
+                payload = pickle.dumps(("ok", fn(*args)))
+            except BaseException as e:  # noqa: BLE001
+                payload = pickle.dumps(("err", f"{type(e).__name__}: {e}\n{traceback.format_exc()}"))
+            with os.fdopen(w, "wb") as f:
+                f.write(payload)
+        except BaseException:  # noqa: BLE001
+            code = 1
+        finally:
+            os._exit(code)
+    os.close(w)
+    with os.fdopen(r, "rb") as f:
+        data = f.read()
+    os.waitpid(pid, 0)
+    if not data:
+        raise HarnessError("forked child died without a result")
+    status, val = pickle.loads(data)
+    if status == "err":
+        raise HarnessError("forked child failed: " + val)
+    return val
+
+
 def run_shards(run, fn, shards, nproc: int | None = None) -> None:
-    """Run ``fn`` over ``shards`` in forked workers and merge everything into ``run``."""
+    """Run ``fn`` over ``shards`` and merge everything into ``run``.  Every shard runs in its own
+    process forked from this one (maxtasksperchild=1), so what a shard observes never depends on
+    which shards the same worker happened to execute before - state that leaks between library
+    calls can only show up *inside* a shard, where it is reproducible."""
     shards = list(shards)
+    run.shard_fn = fn
     nproc = nproc or NPROC
     foreign: set = set()
-    if nproc <= 1 or len(shards) <= 1:
-        results = (_call((fn, s)) for s in shards)
-        pool = None
-    else:
-        ctx = mp.get_context("fork")
-        pool = ctx.Pool(min(nproc, len(shards)))
-        results = pool.imap_unordered(_call, [(fn, s) for s in shards], chunksize=1)
-    try:
-        for status, part in results:
-            if status == "err":
-                raise HarnessError(part)
-            foreign |= part.pop("foreign", None) or set()
-            run.absorb(part)
-    finally:
-        if pool is not None:
-            pool.terminate()
-            pool.join()
+    for status, part in _fork_map(_call, [(fn, s) for s in shards], nproc):
+        if status == "err":
+            raise HarnessError(part)
+        foreign |= part.pop("foreign", None) or set()
+        run.absorb(part)
     run.distinct += len(foreign)
+
+
+def _fork_map(fn, tasks, nproc):
+    """Yield fn(task) for every task, each evaluated in its own child forked from this process,
+    at most ``nproc`` at a time (results in completion order)."""
+    import selectors
+    sel = selectors.DefaultSelector()
+    pending = list(reversed(tasks))
+    live = {}  # fd -> (pid, chunks)
+    try:
+        while pending or live:
+            while pending and len(live) < nproc:
+                task = pending.pop()
+                r, w = os.pipe()
+                pid = os.fork()
+                if pid == 0:
+                    code = 0
+                    try:
+                        os.close(r)
+                        try:
+                            payload = pickle.dumps(("ok", fn(task)))
+                        except BaseException as e:  # noqa: BLE001
+                            payload = pickle.dumps(("crash", f"{type(e).__name__}: {e}\n{traceback.format_exc()}"))
+                        with os.fdopen(w, "wb") as f:
+                            f.write(payload)
+                    except BaseException:  # noqa: BLE001
+                        code = 1
+                    finally:
+                        os._exit(code)
+                os.close(w)
+                os.set_blocking(r, False)
+                live[r] = (pid, [])
+                sel.register(r, selectors.EVENT_READ)
+            for key, _ in sel.select(timeout=5):
+                fd = key.fd
+                try:
+                    data = os.read(fd, 1 << 20)
+                except BlockingIOError:
+                    continue
+                if data:
+                    live[fd][1].append(data)
+                    continue
+                sel.unregister(fd)
+                os.close(fd)
+                pid, chunks = live.pop(fd)
+                os.waitpid(pid, 0)
+                blob = b"".join(chunks)
+                if not blob:
+                    raise HarnessError("a shard process died without a result")
+                status, val = pickle.loads(blob)
+                if status == "crash":
+                    raise HarnessError("shard process failed: " + val)
+                yield val
+    finally:
+        for fd, (pid, _) in live.items():
+            try:
+                os.kill(pid, 9)
+                os.waitpid(pid, 0)
+                os.close(fd)
+            except OSError:
+                pass
+        sel.close()
